@@ -207,9 +207,8 @@ theorem C07_index_dissoc {eq : K → K → Bool} {hashf : K → UInt32} (L : Law
       | none => simpa [HashMap.index, keq] using hold
       | some k' => exact hfind k' old hold
 
-/-- non-vacuity: a lawful pair, and a well-formed non-empty map with an array
-node's worth of colliding keys is reachable (see also the corpus). -/
-example : Lawful (fun a b : Nat => a % 7 == b % 7) (fun n => UInt32.ofNat (n % 7)) :=
+/-- non-vacuity: a lawful pair whose hash collides heavily (only 7 hash values). -/
+theorem C07_lawful_example : Lawful (fun a b : Nat => a % 7 == b % 7) (fun n => UInt32.ofNat (n % 7)) :=
   ⟨by simp, by intro a b; simp; omega, by intro a b c; simp; omega,
    by intro a b h; simp at h; simp [h]⟩
 
@@ -359,6 +358,20 @@ theorem C07_history_refines_reference {eq : K → K → Bool} {hashf : K → UIn
     ⟨(C07_new_wf eq hashf).1, fun k => (C07_new_wf eq hashf).2 k, rfl, List.Pairwise.nil⟩
   obtain ⟨m, h1, hs⟩ := gen ops _ _ h0
   exact ⟨m, h1, hs.wf, hs.index, hs.len⟩
+
+/-- non-vacuity of `WFMap`/`Sim`: a concrete history with replacement through an equal
+but different key (1 ~ 8 ~ 15 mod 7), the nil key and a deletion reaches a well-formed
+map of size 2. -/
+example : ∃ m : HashMap Nat Nat,
+    runOps (fun a b : Nat => a % 7 == b % 7) (fun n => UInt32.ofNat (n % 7))
+      [.assoc (some 1) 10, .assoc (some 8) 11, .assoc none 5, .assoc (some 2) 20, .dissoc (some 15)]
+      HashMap.new = .ok m ∧
+    WFMap (fun a b : Nat => a % 7 == b % 7) (fun n => UInt32.ofNat (n % 7)) m ∧ m.len = 2 := by
+  obtain ⟨m, h1, h2, _, h4⟩ := C07_history_refines_reference (V := Nat) C07_lawful_example
+    [.assoc (some 1) 10, .assoc (some 8) 11, .assoc none 5, .assoc (some 2) 20, .dissoc (some 15)]
+  refine ⟨m, h1, h2, ?_⟩
+  rw [h4]
+  decide
 
 example : (runOps (fun a b : Nat => a == b) (fun _ => 7)
     [.assoc (some 1) 10, .assoc (some 2) 20, .assoc none 30, .dissoc (some 1), .assoc (some 2) 21]
